@@ -456,6 +456,7 @@ func (r *runner) apply(o hop) bool {
 			return false
 		}
 		before := view(r.d, r.n)
+		tombsBefore := r.d.HeadTombstones()
 		if err := r.d.Reopen(); err != nil {
 			r.goViol = append(r.goViol, fmt.Sprintf("Close/Open returned %v", err))
 			return false
@@ -510,6 +511,25 @@ func (r *runner) apply(o hop) bool {
 		}
 		if r.deletes > 0 {
 			r.classes["restart-after-delete"]++
+		}
+		// how the replayed WAL tombstones lay relative to the new minValidTime (loadWAL's filter)
+		_, _, mvNew := r.d.HeadTimes()
+		for _, ivs := range tombsBefore {
+			for _, iv := range ivs {
+				switch {
+				case iv[1] < mvNew:
+					r.classes["restart-tombstone-below-minvalidtime"]++
+				case iv[0] < mvNew:
+					r.classes["restart-tombstone-straddles-minvalidtime"]++
+				case iv[0] == mvNew:
+					r.classes["restart-tombstone-starts-at-minvalidtime"]++
+				default:
+					r.classes["restart-tombstone-above-minvalidtime"]++
+				}
+				if iv[1] == mvNew || iv[1] == mvNew-1 {
+					r.classes["restart-tombstone-ends-at-minvalidtime(-1)"]++
+				}
+			}
 		}
 		r.steps = append(r.steps, fmt.Sprintf("SOp (Restart %s) %s", gallina.List(rl), gObs(r.d, r.n)))
 	case opQuery, opChunkQuery:
@@ -721,6 +741,12 @@ func (r *runner) genDelete(g *gen.Rand) hop {
 		return pts[g.Intn(len(pts))]
 	}
 	a, b := pick(), pick()
+	if _, ma, _ := r.d.HeadTimes(); ma != math.MinInt64 && g.Chance(1, 8) {
+		a = ma // the range starts exactly at Head.MaxTime()
+		if b < a {
+			b = g.PickI64(a, a+1, a+1000, math.MaxInt64)
+		}
+	}
 	switch g.Intn(8) {
 	case 0:
 		b = a
@@ -923,23 +949,48 @@ func (r *runner) generate(g *gen.Rand) {
 	var lastDel hop
 	chunkNext := false
 	// scripted follow-ups of a Delete: the maintenance operations in every order
-	scripts := [][]int{{48, 72}, {72, 48}, {58, 72}, {48, 58, 72}, {58, 48, 72}, {72, 58}, {48, 72, 58}, {92, 48, 72}, {76, 58}, {48, 58}}
-	var queue []int
+	C, K, R, O, T := hop{Kind: opCompact}, hop{Kind: opClean}, hop{Kind: opRestart}, hop{Kind: opCompactOOO}, hop{Kind: opTx, Note: "gen"}
+	scripts := [][]hop{{C, R}, {R, C}, {K, R}, {C, K, R}, {K, C, R}, {R, K}, {C, R, K}, {T, C, R}, {O, K}, {C, K}, {R, C, R}}
+	var queue []hop
 	for (budget > 0 || len(queue) > 0) && !r.stopped {
 		budget--
-		x := g.Intn(100)
-		if len(queue) > 0 {
-			x = queue[0] - 1 // the last value of the op's band below
-			queue = queue[1:]
-		} else if r.deletes > 0 && lastDel.Kind == opDelete && g.Chance(1, 4) {
-			queue = append([]int{}, scripts[g.Intn(len(scripts))]...)
-			r.classes["scripted-follow-up"]++
-			continue
-		}
 		var o hop
-		switch {
-		case x < 34 || r.deletes == 0:
-			o = r.genDelete(g)
+		if len(queue) > 0 {
+			o, queue = queue[0], queue[1:]
+			if o.Kind == opTx && o.Note == "gen" {
+				o = r.genTx(g)
+			}
+		} else {
+			x := g.Intn(100)
+			switch {
+			case r.deletes == 0 && g.Chance(1, 3), x < 8:
+				// a Delete straddling the boundary of the block the next head compaction cuts, then the
+				// compaction and a restart (WAL tombstone replay against the new minValidTime)
+				queue = r.straddle(g)
+				r.classes["scenario-straddle-next-block-boundary"]++
+				continue
+			case x < 16 && lastDel.Kind == opDelete && r.deletes > 0:
+				queue = append([]hop{}, scripts[g.Intn(len(scripts))]...)
+				r.classes["scripted-follow-up"]++
+				continue
+			case x < 42 || r.deletes == 0:
+				o = r.genDelete(g)
+			case x < 54:
+				o = C
+			case x < 62:
+				o = K
+			case x < 74:
+				o = R
+			case x < 78:
+				o = O
+			case x < 92:
+				o = r.genTx(g)
+			default:
+				o = r.partialQuery(g, lastDel)
+			}
+		}
+		switch o.Kind {
+		case opDelete:
 			if ps := r.deletePatterns(o.Mint, o.Maxt, o.Sel); len(ps) > 0 {
 				r.classes["avoided-"+ps[0]]++
 				continue
@@ -956,11 +1007,7 @@ func (r *runner) generate(g *gen.Rand) {
 				return
 			}
 			continue
-		case x < 48:
-			o = hop{Kind: opCompact}
-		case x < 58:
-			o = hop{Kind: opClean}
-		case x < 72:
+		case opRestart:
 			if r.oooBlock { // C01 finding restart-reloads-compacted-ooo-chunk: not entered
 				r.classes["avoided-restart-after-ooo-compaction"]++
 				continue
@@ -969,13 +1016,8 @@ func (r *runner) generate(g *gen.Rand) {
 				r.classes["avoided-restart-lowering-minvalidtime"]++
 				continue
 			}
-			o = hop{Kind: opRestart}
-		case x < 76:
-			o = hop{Kind: opCompactOOO}
-		case x < 92:
-			o = r.genTx(g)
-		default:
-			if !step(r.partialQuery(g, lastDel)) {
+		case opQuery, opChunkQuery:
+			if !step(o) {
 				return
 			}
 			continue
@@ -988,6 +1030,52 @@ func (r *runner) generate(g *gen.Rand) {
 		}
 		chunkNext = !chunkNext
 	}
+}
+
+// straddle: samples on / next to the boundary R of the block the next head compaction will cut
+// (when they can still be appended in order), a sample far enough ahead to make the head
+// compactable, a Delete [lo, hi] with lo < R <= hi, then compaction / cleaning / restart in one of
+// several orders.
+func (r *runner) straddle(g *gen.Rand) []hop {
+	mi, ma, _ := r.d.HeadTimes()
+	if tsdbx.Unset(mi, ma) || mi == math.MaxInt64 {
+		return nil
+	}
+	R := (mi/blockRange)*blockRange + blockRange
+	var seq []hop
+	t := ma
+	var reqs []smp
+	for _, c := range []int64{R + g.PickI64(-1, 0), R + g.PickI64(0, 0, 1), R + g.PickI64(1, 2, 400)} {
+		if c > t {
+			reqs = append(reqs, smp{S: g.Intn(r.n), T: c, V: r.val()})
+			t = c
+		}
+	}
+	if len(reqs) > 0 {
+		seq = append(seq, hop{Kind: opTx, Reqs: reqs})
+	}
+	if far := mi + 1501 + g.Range(0, 400); far > t {
+		seq = append(seq, hop{Kind: opTx, Reqs: []smp{{S: g.Intn(r.n), T: far, V: r.val()}}})
+	}
+	lo := R - g.PickI64(1, 2, 300, 700, 5000)
+	hi := R + g.PickI64(0, 0, 1, 2, 400, 401)
+	switch g.Intn(8) {
+	case 0:
+		lo = math.MinInt64
+	case 1:
+		hi = math.MaxInt64
+	}
+	d := hop{Kind: opDelete, Mint: lo, Maxt: hi, Sel: r.pickSel(g)}
+	C, K, Rs := hop{Kind: opCompact}, hop{Kind: opClean}, hop{Kind: opRestart}
+	tails := [][]hop{{C, Rs}, {C, Rs}, {C, K, Rs}, {K, C, Rs}, {Rs, C, Rs}, {C, Rs, K}}
+	tail := tails[g.Intn(len(tails))]
+	if g.Chance(1, 4) && len(seq) > 0 { // the Delete BEFORE the head becomes compactable
+		last := seq[len(seq)-1]
+		seq = append(seq[:len(seq)-1], d, last)
+	} else {
+		seq = append(seq, d)
+	}
+	return append(seq, tail...)
 }
 
 // ---- corpus ----
@@ -1008,7 +1096,7 @@ func fq(n int) hop {
 	}
 	return hop{Kind: opQuery, Mint: math.MinInt64, Maxt: math.MaxInt64, Sel: sel}
 }
-func fcq(n int) hop { o := fq(n); o.Kind = opChunkQuery; return o }
+func fcq(n int) hop                  { o := fq(n); o.Kind = opChunkQuery; return o }
 func del(a, b int64, sel ...int) hop { return hop{Kind: opDelete, Mint: a, Maxt: b, Sel: sel} }
 func rq(a, b int64, sel ...int) hop  { return hop{Kind: opQuery, Mint: a, Maxt: b, Sel: sel} }
 
